@@ -2,17 +2,22 @@
 
 Every case materialises one (project, parameter set, optional program set + instructions) with drawn uncertainties and
   1. samples the sources directly (ParameterSet.sample / ProgramSet.sample) three times with drawn seeds: must not raise, must
-     return a new object, must leave the source canon-unchanged; the three perturbed runs tell whether the uncertainty reaches
-     the outputs at all ("sensitive": three results pairwise distinct and different from the unsampled run);
+     return a new object, must leave the source canon-unchanged, and with all sigmas 0/None must reproduce the unsampled run;
   2. calls Project.run_sampled_sims serially (always) and in parallel with a drawn number of workers (or Ensemble.run_sims in
      parallel), after seeding the global numpy generator with a drawn seed, and checks
-       - sensitive case: the fingerprints of the samples of one call are pairwise distinct and none equals the unsampled run,
+       - the fingerprints of the samples of one call are pairwise distinct and none equals the unsampled run, whenever a
+         perturbed input is visible one-to-one in the fingerprint,
        - no uncertainty (all sigma 0/None): every sample equals the unsampled run bit for bit,
        - sources canon-unchanged by the call, right number/shape of results,
        - serial: the same seed reproduces the same samples (the documentation seeds np.random before sampling).
+
+Fingerprint of a sample = digest of all result arrays (compartments, characteristics, parameters, links) + digest of the program
+inputs kept by the run (Model.progset is a copy of the sampled program set).  A perturbed input is visible one-to-one if it is a
+data parameter without function, limits, program overwrite or zero calibration factor (its own stored values are value+delta), or
+any program-set input.  Otherwise two different draws may legitimately collapse onto one result (limits, inactive programs) and
+distinctness is not required.
 """
 import os
-import hashlib
 import numpy as np
 from hypothesis import strategies as st
 from vlib import gen_model, simcase, canon, c17_helpers as H
@@ -21,19 +26,20 @@ from vlib.runner import Violation, Discard
 ID = "C17"
 RULE = (
     "cases = (source: generated ModelSpec [<=2 populations, optional programs incl. explicit interaction outcomes] / hand-written 2-population 2-program spec / library "
-    "projects udt, tb_simple; uncertainty class none|zero|parset|progset|both with sigmas drawn as 0.1-5% of the value; samples 2..32; serial call plus a parallel call with "
-    "1,2,3,4,8,16 workers through Project.run_sampled_sims or through Ensemble.run_sims(parallel=True); drawn seeds for the global numpy generator); oracle = pairwise distinct "
-    "result digests within one call when three direct perturbations show that the uncertainty reaches the outputs, bitwise equality with the unsampled run when every sigma is "
-    "0/None, sources canon-unchanged, sample() never raises, serial reproducible from the seed; non-trivial = parallel call with workers >= 2 and samples > workers and an "
-    "uncertainty that reaches the outputs; distinct = distinct case hash"
+    "projects udt, tb_simple; uncertainty class none|zero|parset|progset|both with sigmas drawn as 0.1-5% of the value (program outcomes: 0.001-0.03 absolute); samples 2..32; "
+    "per case 3 direct sample() probes, 2 serial calls of Project.run_sampled_sims and 1 parallel call with 1,2,3,4,8,16 workers (or Ensemble.run_sims(parallel=True)); drawn "
+    "seeds for the global numpy generator before every call); oracle = pairwise distinct fingerprints (result arrays + program inputs kept by the run) within one call when a "
+    "perturbed input is visible one-to-one in the fingerprint, bitwise equality with the unsampled run when every sigma is 0/None, sources canon-unchanged, sample() never "
+    "raises and returns a new object, serial reproducible from the seed; non-trivial = parallel call with workers >= 2 and samples > workers with distinctness required; "
+    "distinct = distinct case hash"
 )
 ASSUMPTIONS = [
     "the harness does not own the OS schedule: it relies on the fault class (forked workers starting from one generator state) showing for (nearly) every schedule and varies worker and sample counts; a schedule in which a single worker happens to execute every task would hide it for that call",
-    "distinctness is judged on result digests (compartments, characteristics, parameters, links), only for cases where three harness-side perturbations give three results that differ from each other and from the unsampled run; sigmas are 0.1-5% of the value so that clipping/sign changes that could map two different draws to one result are not reached",
-    "process start method is fork (Linux default in Python 3.12): workers inherit the check process's sys.path, so VERIF_ATOMICA_SRC applies to workers as well",
-    "serial reproducibility from np.random.seed is taken as promised because docs/examples/Uncertainty.ipynb seeds the global generator to obtain specific samples; parallel reproducibility is not required",
+    "distinctness is required only where a perturbed input reaches the fingerprint one-to-one (untargeted data parameter without function/limits/zero factor, or any program input, which Model.progset retains) and three harness-side perturbations confirm it; sigmas are at most 5% of the value; other cases (perturbation only on clipped, overwritten or function parameters, compartment sizes, transfers) are labelled no-one-to-one-path and still get every other oracle",
+    "process start method is fork (Linux default in Python 3.12; sciris/multiprocess likewise): workers inherit the check process's sys.path, so VERIF_ATOMICA_SRC applies to workers as well",
+    "serial reproducibility from np.random.seed is taken as promised because docs/examples/Uncertainty.ipynb seeds the global generator to obtain specific samples; parallel reproducibility and serial==parallel are not required",
     "a call that exhausts its 50 resampling attempts because of bad initial conditions is outside the domain (discarded, counted); generated specs atomica cannot build/run unsampled are discarded (C18)",
-    "Ensemble.run_sims(parallel=True) cannot be given a worker count (sc.parallelize default = all CPUs); it is exercised on library projects and the hand-written spec only",
+    "Ensemble.run_sims(parallel=True) cannot be given a worker count (sc.parallelize default = all CPUs); it is exercised on library projects and the hand-written spec only; its fingerprint is computed on the worker inside the mapping function",
 ]
 BUDGET = {"quick": 72, "thorough": 1500}
 TIME_CAP = {"quick": 80, "thorough": 1700}
@@ -129,19 +135,19 @@ def static_cases(tier):
 # --------------------------------------------------------------------------- fingerprints
 
 
+def fingerprint(res):
+    """result arrays (compartments, characteristics, parameters, links) + the program inputs the run kept (Model.progset is the sampled set)"""
+    return canon.result_digest(res) + "/" + H.progset_inputs_digest(res.model.progset)
+
+
 def _map_plotdata(result, **kwargs):
-    """mapping function of the Ensemble (module level so that it can be sent to workers)"""
+    """mapping function of the Ensemble (module level so that it can be sent to workers); the fingerprint of the full Result
+    travels on the PlotData because the Result itself is dropped on the worker"""
     import atomica as at
 
-    return at.PlotData(result)
-
-
-def _pd_digest(pd):
-    h = hashlib.sha1()
-    for s in pd.series:
-        h.update(repr((s.pop, s.output)).encode())
-        h.update(np.ascontiguousarray(np.asarray(s.vals, dtype=float)).tobytes())
-    return h.hexdigest()
+    pd = at.PlotData(result)
+    pd.c17_fingerprint = fingerprint(result)
+    return pd
 
 
 def _reap():
@@ -182,12 +188,11 @@ def check(case):
         labels.append("explicit-interaction" + ("+sigma" if m["explicit_sigma"] else ""))
     what = "uncertainty=%s n=%d" % (labels[2], n)
 
-    def fp_of(res):
-        return (canon.result_digest(res), _pd_digest(_map_plotdata(res)) if ensemble else None)
-
     try:
         base = P.run_sim(ps, pg, ins)
-        fp_base = fp_of(base)
+        fp_base = fingerprint(base)
+        if ensemble:
+            _map_plotdata(base)
     except Exception as e:
         raise Discard("unsampled run raised %s at %s (decided by C18)" % (type(e).__name__, simcase.atomica_frame(e)))
 
@@ -219,31 +224,33 @@ def check(case):
             raise Violation(ID, "sample-returns-source/" + ("parset" if sps is ps else "progset"), "sample() returned the source object itself (%s)" % what)
         sources_unchanged("sample()")
         try:
-            probes.append(fp_of(P.run_sim(sps, spg, ins)))
+            probes.append(fingerprint(P.run_sim(sps, spg, ins)))
         except at.BadInitialization:
             probes.append(None)
         except Exception as e:
             raise Discard("perturbed run raised %s at %s (not a sampling matter)" % (type(e).__name__, simcase.atomica_frame(e)))
-    k = 1 if ensemble else 0
     if not uncertain:
         for f in probes:
-            if f is not None and f[0] != fp_base[0]:
+            if f is not None and f != fp_base:
                 raise Violation(ID, "zero-uncertainty-perturbs/sample()", "all sigmas are 0/None but the run on the sampled sets differs from the unsampled run (%s)" % what)
         sensitive = False
     else:
-        got = [f[k] for f in probes if f is not None]
-        sensitive = len(got) == 3 and len(set(got + [fp_base[k]])) == 4
-        labels.append("sensitive" if sensitive else "uncertainty-does-not-reach-outputs")
+        # distinctness is only required where a perturbed input is visible one-to-one in the fingerprint (so that two different
+        # draws cannot collapse onto one result through limits, inactive programs, functions ...), confirmed by the three probes
+        got = [f for f in probes if f is not None]
+        one_to_one = m["eff_par"] or m["gpos"]
+        sensitive = one_to_one and len(got) == 3 and len(set(got + [fp_base])) == 4
+        labels.append("distinctness-checked" if sensitive else ("no-one-to-one-path" if not one_to_one else "probes-not-distinct"))
 
     # ---- 2. the calls ---------------------------------------------------------------------------------------------------------
     def judge(fps, where, bucket_where, detail):
         if uncertain and sensitive:
             if len(set(fps)) < len(fps):
                 raise Violation(ID, "shared-draws/" + bucket_where, "%s: %d samples but only %d distinct results; identical groups %r (%s)" % (detail, len(fps), len(set(fps)), [g for g in _groups(fps) if len(g) > 1][:6], what))
-            if fp_base[k] in fps:
-                raise Violation(ID, "sample-not-perturbed/" + bucket_where, "%s: sample %d equals the unsampled run although the uncertainty reaches the outputs (%s)" % (detail, fps.index(fp_base[k]), what))
+            if fp_base in fps:
+                raise Violation(ID, "sample-not-perturbed/" + bucket_where, "%s: sample %d equals the unsampled run although the uncertainty reaches the outputs (%s)" % (detail, fps.index(fp_base), what))
         if not uncertain:
-            bad = [i for i, f in enumerate(fps) if f != fp_base[k]]
+            bad = [i for i, f in enumerate(fps) if f != fp_base]
             if bad:
                 raise Violation(ID, "zero-uncertainty-differs/" + bucket_where, "%s: all sigmas are 0/None but samples %r differ from the unsampled run (%s)" % (detail, bad[:8], what))
         sources_unchanged(where)
@@ -260,7 +267,7 @@ def check(case):
             _reap()
         if not isinstance(out, list) or len(out) != nn or any((not isinstance(x, list)) or len(x) != 1 or not isinstance(x[0], at.Result) for x in out):
             raise Violation(ID, "wrong-shape/" + ("parallel" if parallel else "serial"), "expected a list of %d one-element lists of Result, got %r" % (nn, [type(x).__name__ for x in out][:5] if isinstance(out, list) else type(out)))
-        return [canon.result_digest(x[0]) for x in out]
+        return [fingerprint(x[0]) for x in out]
 
     if not ensemble:
         fps = run_project(n, case["seed"], False, None)
@@ -289,7 +296,7 @@ def check(case):
             _reap()
         if len(ens.samples) != n:
             raise Violation(ID, "wrong-shape/ensemble-parallel", "expected %d samples, got %d" % (n, len(ens.samples)))
-        fps = [_pd_digest(s) for s in ens.samples]
+        fps = [getattr(s, "c17_fingerprint", None) for s in ens.samples]
         judge(fps, "Ensemble.run_sims(parallel)", "ensemble-parallel", "Ensemble.run_sims(parallel=True) on %d CPUs" % ncpu)
         labels.append("api:ensemble")
         nontrivial = sensitive and ncpu >= 2 and n > ncpu
